@@ -12,5 +12,6 @@ Definition g_ic_reduce_spinn : tx := gen_ic_reduce_spinn.
 Definition g_ode_ic_reduce : tx := gen_ode_ic_reduce.
 Definition g_norm_reduce_statio : tx := gen_norm_reduce_statio.
 Definition g_norm_reduce_nonstatio : tx := gen_norm_reduce_nonstatio.
+Definition g_norm_statio_sliced : bool := gen_norm_statio_over_solution_slice.
 Definition g_totals : bool :=
   gen_total_ode_is_sum_of_returned_terms && gen_total_statio_is_sum_of_returned_terms && gen_total_nonstatio_is_sum_of_returned_terms.
